@@ -38,10 +38,10 @@ fn triple(k: u64) -> (u8, u8, u8) {
     unreachable!()
 }
 
-const A_PER_TRIPLE_Q: u64 = 5;
-const B_PER_TRIPLE_Q: u64 = 2;
-const A_PER_TRIPLE_T: u64 = 60;
-const B_PER_TRIPLE_T: u64 = 25;
+const A_PER_TRIPLE_Q: u64 = 16;
+const B_PER_TRIPLE_Q: u64 = 6;
+const A_PER_TRIPLE_T: u64 = 150;
+const B_PER_TRIPLE_T: u64 = 60;
 
 pub static PROP: Prop = Prop {
     id: "C10",
@@ -60,7 +60,7 @@ pub static PROP: Prop = Prop {
     ],
     profiles: Profiles::Both,
     cases: |t| TRIPLES * t.pick(A_PER_TRIPLE_Q + B_PER_TRIPLE_Q, A_PER_TRIPLE_T + B_PER_TRIPLE_T),
-    budget_s: |t| t.pick(45, 500),
+    budget_s: |t| t.pick(60, 900),
     run,
     min_nontrivial: 100,
     required_counters: &[
